@@ -26,7 +26,7 @@ type seqCase struct {
 // normalized on reused instances (admit.Pipeline, the engine's option sets and order of
 // steps) and on fresh ones; print, variables and remap table must be equal, so everything
 // the other parts establish for fresh instances holds for a long-lived server too.
-var reusePart = pbt.Part[seqCase]{Name: "norm-independent-of-instance-history", Quick: 5000, Thorough: 100000, Check: checkSeq,
+var reusePart = pbt.Part[seqCase]{Name: "norm-independent-of-instance-history", Quick: 15000, Thorough: 100000, Check: checkSeq,
 	Gen: func(t *rapid.T) seqCase {
 		l := fedgen.Gen(t, fedgen.Options{MaxSubs: 2})
 		super, err := sim.LoadSuper(l.Super)
